@@ -31,7 +31,8 @@ def gen(ctx):
                 t_lags=('max' if rng.random() < 0.5 else int(rng.integers(1, m))),
                 maxlag=(None if rng.random() < 0.5 else float(rng.choice([0.5, 0.8])) if rng.random() < 0.7 else 'median'),
                 xbins=str(rng.choice(['even', 'uniform'])), tbins=str(rng.choice(['even', 'uniform'])),
-                estimator=str(rng.choice(['matheron', 'dowd', 'genton'])), kind=kind)
+                estimator=str(rng.choice(['matheron', 'dowd', 'genton'])), kind=kind,
+                use_nugget=bool(rng.random() < 0.4))
 
 
 def build(case):
@@ -39,7 +40,7 @@ def build(case):
         return SpaceTimeVariogram(np.array(case['coords'], float), np.array(case['values'], float),
                                   x_lags=case['x_lags'], t_lags=case['t_lags'], maxlag=case['maxlag'],
                                   xbins=case['xbins'], tbins=case['tbins'], estimator=case['estimator'],
-                                  model='product-sum')
+                                  model='product-sum', use_nugget=case.get('use_nugget', False))
 
 
 def check_case(ctx, case):
